@@ -193,7 +193,7 @@ fn vstream(profile: &str, seed: u64, start: u64, count: u64, verbose: bool, tall
                 let s = if real {
                     synth::from_items(&real_items())
                 } else {
-                    synth::generate(seed, idx, synth::SynthCfg::default(), idx % 5 != 0, &gen_prof)
+                    synth::generate(seed, idx, synth::SynthCfg { empty_brackets: idx % 3 == 1, ..synth::SynthCfg::default() }, idx % 5 != 0, &gen_prof)
                 };
                 os::c11(&s, tally, idx);
             }
@@ -201,7 +201,7 @@ fn vstream(profile: &str, seed: u64, start: u64, count: u64, verbose: bool, tall
                 let items = if real {
                     recw::normalize(&real_items())
                 } else {
-                    let cfg = synth::SynthCfg { not_found: idx % 3 == 0, ..synth::SynthCfg::default() };
+                    let cfg = synth::SynthCfg { not_found: idx % 3 == 0, empty_brackets: idx % 6 == 1, ..synth::SynthCfg::default() };
                     synth::generate_with(seed, idx, cfg, false, &gen_prof, |feats, r| {
                         if idx % 2 == 0 {
                             synth::repeat_step_texts(feats, r);
@@ -215,7 +215,7 @@ fn vstream(profile: &str, seed: u64, start: u64, count: u64, verbose: bool, tall
                 let mut items = if real {
                     synth::from_items(&real_items()).items
                 } else {
-                    synth::generate(seed, idx, synth::SynthCfg::default(), idx % 2 == 0, &gen_prof).items
+                    synth::generate(seed, idx, synth::SynthCfg { empty_brackets: idx % 3 == 1, ..synth::SynthCfg::default() }, idx % 2 == 0, &gen_prof).items
                 };
                 if idx % 7 == 0 {
                     rng.shuffle(&mut items); // these wrappers are stateless per event
@@ -228,7 +228,7 @@ fn vstream(profile: &str, seed: u64, start: u64, count: u64, verbose: bool, tall
                 let items = if real {
                     synth::from_items(&real_items()).items
                 } else {
-                    let cfg = synth::SynthCfg { not_found: idx % 4 == 0, ..synth::SynthCfg::default() };
+                    let cfg = synth::SynthCfg { not_found: idx % 4 == 0, empty_brackets: idx % 6 == 1, ..synth::SynthCfg::default() };
                     synth::generate_with(seed, idx, cfg, idx % 2 == 0, &gen_prof, |feats, r| {
                         if idx % 5 == 1 {
                             synth::repeat_step_texts(feats, r);
